@@ -30,6 +30,50 @@ def has_line(self):
     return self._current_line_number is not None
 
 
+P_DP = 'exactly_lib.section_document.impl.document_parser'
+
+
+def at_document_level(interp):
+    """the function under verification belongs to the document parser (impl/document_parser.py)"""
+    return interp.fn_name.startswith(P_DP + ':')
+
+
+def element_level_only(f):
+    """Abstraction barrier between the two levels of the proof.  The representation invariant of ParseSource
+    and the spec functions over the original text are DEFINED (interpreted) while ParseSource and the element
+    parsers are verified; while the document parser is verified they are uninterpreted functions of the
+    state of the source (its four fields) and the original text.  The document parser does not look into
+    the text: all it uses of a ParseSource are the contracts of its methods, which are proved at the level
+    where the definitions are visible.  (Natively they are always the definitions.)"""
+    import z3
+    from pyvc.values import SOpt, SInt, SStr, to_z3, wrap
+    import inspect
+    ret_str = f.__name__ in ('last_consumed_line',)
+
+    def field_terms(v, sort):
+        if isinstance(v, SOpt):
+            return [v.is_none, to_z3(v.val)]
+        if v is None:
+            return [z3.BoolVal(True), z3.StringVal('') if sort == 'str' else z3.IntVal(0)]
+        return [z3.BoolVal(False), to_z3(v)]
+
+    def make(interp, args, kwargs):
+        names = list(inspect.signature(f).parameters)
+        ts = []
+        for n, a in zip(names, args):
+            if isinstance(a, ParseSource):
+                ts += [to_z3(a._column_index), to_z3(a.source_string)]
+                ts += field_terms(a._current_line_number, 'int') + field_terms(a._current_line_text, 'str')
+            else:
+                ts.append(to_z3(a))
+        uf = z3.Function('spec.' + f.__name__, *([t.sort() for t in ts] + [z3.StringSort() if ret_str else z3.BoolSort()]))
+        return wrap(uf(*ts))
+
+    M.abstract(f, at_document_level, make)
+    return f
+
+
+@element_level_only
 def RI(self, orig):
     """Representation invariant.  Either there is *no current line* (everything consumed), or
     source_string is the suffix of orig that starts at the current line, which really is a line of orig
@@ -62,6 +106,26 @@ def RI(self, orig):
         if rest[:1] != NL:
             return False
     return (k == 0 or orig[k - 1:k] == NL) and self._current_line_number == 1 + orig[:k].count(NL)
+
+
+@element_level_only
+def last_consumed_line(orig, source):
+    """the text of the line that ends just before the current position (a line start, or the end)"""
+    before = orig[:off_of(source, orig) - 1] if has_line(source) else orig
+    return before.rpartition(NL)[2]
+
+
+@element_level_only
+def _line_start_at(orig, k):
+    """offset k of orig is the start of a line (a conjunct of RI, as a test: the character before becomes a
+    piece of orig)"""
+    if k != 0:
+        if orig[k - 1:k] != NL:
+            return False
+    return True
+
+
+NOT_IN_DOCUMENT_PARSER = lambda fn_name: not fn_name.startswith(P_DP + ':')      # `inline=`: see element_level_only
 
 
 PARSE_SOURCE = Inst(ParseSource, _column_index=Int, source_string=Str,
@@ -174,21 +238,27 @@ M.contract(P_PS + ':ParseSource.consume', inline=True,
                (not has_line(self)) or self._current_line_number == 1 + orig[:off_of(self, orig)].count(NL),
            }, raises_only=())
 
-M.contract(P_PS + ':ParseSource.consume_current_line', inline=True,
+M.contract(P_PS + ':ParseSource.consume_current_line', inline=NOT_IN_DOCUMENT_PARSER,
            params=dict(self=PARSE_SOURCE), ghosts=dict(orig=Str),
            requires=lambda self, orig: RI(self, orig),
-           old=lambda self, orig: (snap(self), off_of(self, orig)),
+           old=lambda self, orig: (snap(self), off_of(self, orig), ls_of(self, orig)),
            modifies=dict(self=PS_FRAME),
            raises={ValueError: {
                'when': lambda self: not has_line(self),
                'ensures': lambda self, old: unchanged(self, old[0])}},
            ensures={
                'RI': lambda self, orig: RI(self, orig),
-               'to-just-after-the-next-newline-or-no-current-line': lambda self, orig, old:
+               'to-just-after-the-next-newline-or-no-current-line': (lambda self, orig, old:
                (has_line(self) and off_of(self, orig) == old[1] + orig[old[1]:].find(NL) + 1
                 and self._column_index == 0 and self._current_line_number == old[0][2] + 1)
                if NL in orig[old[1]:] else
-               ((not has_line(self)) and off_of(self, orig) == len(orig)),
+               ((not has_line(self)) and off_of(self, orig) == len(orig)), NOT_IN_DOCUMENT_PARSER),
+               'next-line-number-or-no-current-line-at-the-end': lambda self, orig, old:
+               (self._current_line_number == old[0][2] + 1) if has_line(self) else off_of(self, orig) == len(orig),
+               'not-moved-back-and-at-a-line-start': lambda self, orig, old:
+               off_of(self, orig) >= old[1] and ((not has_line(self)) or self._column_index == 0),
+               'the-line-before-the-new-position-is-the-line-consumed': lambda self, orig, old:
+               _line_start_at(orig, old[2]) and last_consumed_line(orig, self) == old[0][3],
            }, raises_only=())
 
 M.contract(P_PS + ':ParseSource.consume_part_of_current_line', inline=True,
@@ -300,10 +370,25 @@ def without_final_newline(s):
 LINE_SEQUENCE = Inst(line_source.LineSequence, _first_line_number=Int, _lines=MListOf(Str))
 
 
+def _forward_abstractly(source, orig, old_off, had_line):
+    return RI(source, orig) and off_of(source, orig) >= old_off and (had_line or not has_line(source))
+
+
 def havoc_source_forward(interp, source):
     """environment step on a ParseSource (see the assumption above): consume(n), then possibly
-    consume_current_line(), executed from the real source text of ParseSource"""
+    consume_current_line(), executed from the real source text of ParseSource.  At the document level
+    (element_level_only) the step is taken abstractly: arbitrary new fields for which what the class contract
+    guarantees of every such step holds (RI, not moved backwards, no current line once there was none)."""
     st = interp.st
+    if at_document_level(interp):
+        orig = interp.reg.ghost_env['orig']
+        old_off = interp.call(off_of, [source, orig], {})
+        had_line = interp.call(has_line, [source], {})
+        for attr, ty in PS_FRAME.items():
+            interp.note_heap_write(source, attr)
+            interp.setattr(source, attr, ty.make(interp, 'parsed.' + attr))
+        assume_pred(interp, _forward_abstractly, source, orig, old_off, had_line)
+        return
     n = Nat.make(interp, 'consumed')
     assume_pred(interp, _available, source, n)
     interp.call_real_function(ParseSource.consume, [source, n], {})
@@ -501,14 +586,55 @@ M.trust('re.Pattern.match on symbolic subjects: pyvc/regex.py -- match iff a pre
         'as [A-Za-z0-9_] (section names with non-ASCII letters are outside the model).')
 
 
+import z3 as _z3
+from pyvc.values import SStr as _SStr, SChoice as _SChoice, to_z3 as _to_z3, wrap as _wrap
+
+
+def _str_term(interp, v):
+    if isinstance(v, _SChoice):       # one of finitely many concrete strings: a term, no case split
+        alts = [a if isinstance(a, str) else '' for a in v.alts]      # (None: excluded by the context)
+        t = _z3.StringVal(alts[-1])
+        for i in range(len(alts) - 2, -1, -1):
+            t = _z3.If(v.idx == i, _z3.StringVal(alts[i]), t)
+        return t
+    from pyvc.values import SOpt as _SOpt
+    if isinstance(v, _SOpt):          # (None: excluded by the context)
+        return _str_term(interp, v.val)
+    if v is None:
+        return _z3.StringVal('')
+    return _to_z3(v)
+
+
+def defined_in_syntax_only(f):
+    """Abstraction barrier.  The definition of the line-syntax predicate `f` is visible (interpreted) only
+    while the functions of section_document.syntax are verified -- that is where the program's regular
+    expressions are proved to agree with it.  Everywhere else it is an uninterpreted function of its arguments:
+    the document parser and the element parsers do not depend on what a header looks like, only on the
+    syntax module's functions computing these predicates.  (Natively it is always the definition.)"""
+
+    def outside_syntax(interp):
+        return not (interp.fn_name.startswith(P_SYN + ':') or interp.fn_name.startswith('contracts.C07_document:syntax_'))
+
+    def make(interp, args, kwargs):
+        ts = [_str_term(interp, a) for a in args]
+        uf = _z3.Function('syntax.' + f.__name__, *([_z3.StringSort()] * len(ts) + [_z3.BoolSort()]))
+        return _wrap(uf(*ts))
+
+    M.abstract(f, outside_syntax, make)
+    return f
+
+
+@defined_in_syntax_only
 def is_header(line):
     return line.lstrip(BLANKS).startswith('[')
 
 
+@defined_in_syntax_only
 def is_comment(line):
     return line.lstrip(BLANKS).startswith('#')
 
 
+@defined_in_syntax_only
 def is_blank(line):
     """only blanks (a final newline is tolerated: lines never have one)"""
     return line.lstrip(BLANKS) == '' or line.lstrip(BLANKS) == NL
@@ -522,6 +648,7 @@ M.contract(P_SYN + ':is_empty_line', params=dict(line=Str), returns=Bool,
            ensures={'only-blanks': lambda line, result: iff(result, is_blank(line))}, raises_only=())
 
 
+@defined_in_syntax_only
 def is_header_of(line, name):
     """line is a well-formed phase header for the phase `name`:  blanks [ name ] blanks, where the name and
     what follows it are what the module's own patterns for them accept"""
@@ -657,8 +784,6 @@ M.loop(P_SEP + ':ParserFromSequenceOfParsers.parse', 0,
 # list with an object.
 from contracts.common import is_item, conj, slot, snapshot_lists
 from exactly_lib.section_document.impl import document_parser as dp
-
-P_DP = 'exactly_lib.section_document.impl.document_parser'
 
 ELEMENTS = MListOf(Any_)
 
@@ -801,9 +926,26 @@ def _mk_impl(interp, name):
     impl._element_constructor = dp._SectionElementParseResultHandler(
         SectionContentElementBuilder(impl._current_file_location))
     impl.visited_paths = ListOf(PATH).make(interp, name + '.visited_paths')
-    if interp.st.choose(2) == 1:
-        _enter_section(interp, impl, SECTION_NAME.make(interp, name + '._name_of_current_section'))
+    _any_section_state(interp, impl)
     return impl
+
+
+def _any_section_state(interp, impl):
+    """the three fields about the current section: one index selects name, parser and list together (no
+    case split here); the last index is `outside any section`.  Coherence is what `section_ok` says."""
+    from pyvc.values import SChoice
+    from pyvc.mlist import MList
+    st = interp.st
+    names = list(SECTION_NAMES)
+    idx = st.fresh_int('section.idx')
+    st.assume(idx >= 0)
+    st.assume(idx <= len(names))
+    conf = impl.configuration
+    d = impl._section_name_2_element_list
+    interp.setattr(impl, '_name_of_current_section', SChoice(idx, names + [None]))
+    interp.setattr(impl, '_parser_for_current_section', SChoice(idx, [conf.section2parser[k] for k in names] + [None]))
+    outside = MList(interp, st.fresh_name('elements.outside'), ('obj',))
+    interp.setattr(impl, '_elements_for_current_section', SChoice(idx, [d.values[k] for k in names] + [outside]))
 
 
 def _enter_section(interp, impl, section_name):
@@ -825,13 +967,30 @@ def in_section(self):
 
 def section_ok(self):
     """the current section's parser is the configured one and its element list IS the list in the dictionary"""
-    if self._name_of_current_section is None:
-        return True
     name = self._name_of_current_section
-    return name in self.configuration.section2parser \
-        and self._parser_for_current_section is self.configuration.section2parser[name] \
-        and name in self._section_name_2_element_list \
-        and self._elements_for_current_section is self._section_name_2_element_list[name]
+    d = self._section_name_2_element_list
+    return (name is None or name in self.configuration.section2parser) \
+        and conj([implies(name == k,
+                          self._parser_for_current_section is self.configuration.section2parser[k]
+                          and k in d and self._elements_for_current_section is slot(d, k))
+                  for k in SECTION_NAMES])
+
+
+def at_eof(s):
+    return s._current_line_number is None or s._column_index == len(s.source_string)
+
+
+def cur_line_ok(self):
+    """_current_line caches the current line of the source; None exactly at the end of the document"""
+    s = self._document_source
+    if at_eof(s):
+        return self._current_line is None
+    return self._current_line is not None and self._current_line.line_number == s._current_line_number \
+        and self._current_line.text == s._current_line_text
+
+
+def impl_ok(self, orig):
+    return RI(self._document_source, orig) and cur_line_ok(self) and section_ok(self)
 
 
 def lists_snapshot(self):
@@ -862,3 +1021,112 @@ M.contract(P_DP + ':_Impl.set_current_section',
                'other-sections-untouched': lambda self, section_name, old:
                other_lists_unchanged(self, old[0], but=section_name),
            }, raises_only=())
+
+
+# ---- loop frames of _Impl: the whole parsing state becomes arbitrary (the invariant then says what is known)
+
+from pyvc.values import SChoice
+from pyvc.mlist import MList
+from exactly_lib.section_document.exceptions import FileSourceError, FileAccessError
+
+
+def havoc_impl(interp, impl):
+    st = interp.st
+    src = impl._document_source
+    for attr, ty in PS_FRAME.items():
+        interp.note_heap_write(src, attr)
+        interp.setattr(src, attr, ty.make(interp, 'src.' + attr))
+    interp.setattr(impl, '_current_line', Opt(Inst(Line, _tuple=[Int, Str])).make(interp, 'current_line'))
+    d = impl._section_name_2_element_list
+    interp.note_heap_write(d, None)
+    d.havoc(interp, 'L')
+    _any_section_state(interp, impl)
+
+
+IMPL_STATE = HavocBy(havoc_impl)
+IMPL_FRAME = {'self': IMPL_STATE, '@self._document_source': None, '@self._section_name_2_element_list': None}
+
+
+def lists_grown_by_new_empty_sections_only(self, old_lists):
+    d = self._section_name_2_element_list
+    return conj([implies(k in old_lists, k in d and same_items(slot(d, k), slot(old_lists, k)))
+                 and implies(k in d and k not in old_lists, len(slot(d, k)) == 0)
+                 for k in SECTION_NAMES])
+
+
+def error_is_about_current_line(exc, self):
+    """a FileSourceError that carries the number and text of the current line of the source and the location
+    of the current file (path and chain of including files)"""
+    s = self._document_source
+    loc = exc.source_location_info.source_location_path
+    return exc.source.first_line_number == s._current_line_number \
+        and len(exc.source.lines) == 1 and exc.source.lines[0] == s._current_line_text \
+        and loc.location.source.first_line_number == s._current_line_number \
+        and len(loc.location.source.lines) == 1 and loc.location.source.lines[0] == s._current_line_text \
+        and loc.location.file_path_rel_referrer is self._current_file_location._file_path_rel_referrer \
+        and loc.file_inclusion_chain is self._current_file_location._file_inclusion_chain
+
+
+P_SWITCH = P_DP + ':_Impl.switch_section_according_to_last_section_line_and_consume_section_lines'
+
+
+def consumed_some_line(source, old_number):
+    """the source has left the line it was on (it then had a current line, with number old_number)"""
+    return (not has_line(source)) or source._current_line_number > old_number
+
+
+def _switch_inv(self, orig, old):
+    if not impl_ok(self, orig):
+        return False
+    s = self._document_source
+    if off_of(s, orig) < old[1]:
+        return False
+    if has_line(s):
+        if s._column_index != 0:
+            return False
+        if s._current_line_number < old[3]:
+            return False
+    if not lists_grown_by_new_empty_sections_only(self, old[0]):
+        return False
+    if consumed_some_line(s, old[3]):
+        if not in_section(self):
+            return False
+        if not is_header_of(last_consumed_line(orig, s), self._name_of_current_section):
+            return False
+    else:
+        if not _same_section(self, old[2]):
+            return False
+    return True
+
+
+def _same_section(self, old_section):
+    return self._name_of_current_section == old_section[0] \
+        and self._parser_for_current_section is old_section[1] \
+        and self._elements_for_current_section is old_section[2]
+
+
+M.contract(P_SWITCH,
+           params=dict(self=IMPL), ghosts=dict(orig=Str),
+           requires=lambda self, orig: impl_ok(self, orig) and self._current_line is not None
+           and self._document_source._column_index == 0,
+           old=lambda self, orig: (lists_snapshot(self), off_of(self._document_source, orig),
+                                   (self._name_of_current_section, self._parser_for_current_section,
+                                    self._elements_for_current_section),
+                                   self._document_source._current_line_number),
+           modifies={'self': dict(_current_line=Any_, _name_of_current_section=Any_,
+                                  _parser_for_current_section=Any_, _elements_for_current_section=Any_),
+                     'self._document_source': PS_FRAME},
+           raises={FileSourceError: {'ensures': lambda self, orig, old, exc:
+                   RI(self._document_source, orig) and has_line(self._document_source)
+                   and is_header(self._document_source._current_line_text)
+                   and error_is_about_current_line(exc, self)
+                   and exc.maybe_section_name is None
+                   and lists_grown_by_new_empty_sections_only(self, old[0])}},
+           ensures={
+               'state-well-formed-lists-only-gained-new-empty-sections-current-section-is-that-of-the-last-header':
+                   lambda self, orig, old: _switch_inv(self, orig, old),
+               'stops-at-end-or-at-a-line-that-is-not-a-header': lambda self:
+               self._current_line is None or not is_header(self._current_line.text),
+           }, raises_only=())
+M.loop(P_SWITCH, 0, invariant=lambda self, orig, old: _switch_inv(self, orig, old),
+       modifies=dict(IMPL_FRAME, section_line='local', section_name='local', msg='local'))
